@@ -640,3 +640,15 @@ Proof.
   { left. repeat split. }
   destruct (run_sc_suffix _ _ _ Hrun) as [p Hp]. exists p. rewrite <- Hi. exact Hp.
 Qed.
+
+(* the three facts about Rest after k calls of Next, in terms of the model's scanner *)
+Theorem rest_model s k : exists sc consumed,
+  run_sc (new_scanner s) (repeat ONext k) = Some sc /\
+  s = consumed ++ inp sc /\ inp sc = ref_rest k s /\
+  forall ops, run_ops sc (ORest :: ops) = RRest (inp sc) :: map dead ops.
+Proof.
+  destruct (run_sc_rest k s true (new_scanner s)) as (sc' & Hrun & Hi).
+  { left. repeat split. }
+  destruct (run_sc_suffix _ _ _ Hrun) as [p Hp]. exists sc', p.
+  split; [exact Hrun|]. split; [exact Hp|]. split; [exact Hi|]. intros ops. apply rest_then_dead.
+Qed.
